@@ -12,13 +12,32 @@ spec.loader.exec_module(c02)
 
 
 def run(ctx):
+    import concurrent.futures as cf
     binary = vlib.go_build("baseapp", ctx)
     case = ctx.replay_case()
     if case and "scenario" in case:
         return c02.run(ctx, pid="C10", gas_only=True)
-    c02.model_check(ctx, witnesses=False)
+    spec1 = importlib.util.spec_from_file_location("c01", os.path.join(here, "c01.py"))
+    c01 = importlib.util.module_from_spec(spec1)
+    spec1.loader.exec_module(c01)
+    hb = vlib.go_build("history", ctx)
     n = 3 if ctx.tier == "quick" else 40
-    lines, s = c02.record(ctx, binary, n)
+    nb = 6
+    splits = (2, 4) if ctx.tier == "quick" else (1, 2, 3, 4, 5)
+    out2 = os.path.join(ctx.scratch_dir("rec"), "t2.ndjson")
+    # every real-code run is its own process; start them all, model-check meanwhile
+    with cf.ThreadPoolExecutor(max_workers=8) as ex:
+        f_rec = ex.submit(c02.record, ctx, binary, n)
+        f_rec2 = ex.submit(vlib.run_driver, ctx, binary, ["-mode", "record", "-out", out2, "-n", str(n), "-x", "restart"], None, 3000)
+        f_term = ex.submit(vlib.run_driver, ctx, binary, ["-mode", "terminate"], None, 3000)
+        f_ref = ex.submit(c01.run_variant, ctx, hb, ctx.seed, nb, "memdb", 0, 16, "ref")
+        f_split = {sp: ex.submit(c01.run_variant, ctx, hb, ctx.seed, nb, "goleveldb", 0, 16, "split%d" % sp, sp) for sp in splits}
+        c02.model_check(ctx, witnesses=False)
+        lines, s = f_rec.result()
+        res2 = f_rec2.result()
+        res_term = f_term.result()
+        ref, _ = f_ref.result()
+        split_runs = {sp: f.result()[0] for sp, f in f_split.items()}
     ctx.cov["outcome_counts"] = {k[2:]: v for k, v in s.items() if k.startswith("n_")}
     need = ["n_ok", "n_fail:oog:block", "n_fail:oog:noblock", "n_fail:oog:tx"]
     missing = [k for k in need if not s.get(k)]
@@ -27,8 +46,7 @@ def run(ctx):
     acc, total = c02.validate_all(ctx, lines, "C10", want_gas_only=True)
     ctx.add("traces_validated_against_impl", total)
     # determinism: same seed again, with a restart (new app object, cold caches) before every block
-    out2 = os.path.join(ctx.scratch_dir("rec"), "t2.ndjson")
-    vlib.handle_driver_results(ctx, vlib.run_driver(ctx, binary, ["-mode", "record", "-out", out2, "-n", str(n), "-x", "restart"], timeout=3000))
+    vlib.handle_driver_results(ctx, res2)
     lines2 = [json.loads(l) for l in open(out2) if l.strip()]
     ntx = 0
     if len(lines) != len(lines2):
@@ -44,9 +62,22 @@ def run(ctx):
                 break
     ctx.cov["determinism_txs_compared"] = ntx
     ctx.add("traces_validated_against_impl", 1)
+    # determinism across a TRUE restart: the same history continued by a second process on the same on-disk DB
+    # (process-global caches cold) must report the same results and gas as the uninterrupted run
+    for split, var in sorted(split_runs.items()):
+        if len(var) != len(ref):
+            ctx.violation("C10:process-restart:block-count", "history split at block %d produced %d blocks, reference %d" % (split, len(var), len(ref)), None)
+            continue
+        for a, b in zip(ref, var):
+            ga = [(t["ok"], t["used"]) for t in a["txs"]]
+            gb = [(t["ok"], t["used"]) for t in b["txs"]]
+            if ga != gb:
+                ctx.violation("C10:gas-differs-after-process-restart", "block h=%s: (ok, gas used) per tx %s in the uninterrupted run vs %s in a run continued by a second process from block %d" % (a["h"], ga, gb, split),
+                              {"reference": a, "restarted": b, "split": split, "seed": ctx.seed})
+                break
+        ctx.add("traces_validated_against_impl", 1)
     # termination of unbounded-work programs
-    res = vlib.run_driver(ctx, binary, ["-mode", "terminate"], timeout=3000)
-    st = vlib.handle_driver_results(ctx, res)
+    st = vlib.handle_driver_results(ctx, res_term)
     ctx.cov["unbounded_programs_run"] = int(st.get("programs_run", 0))
     ctx.cov["unbounded_programs_stopped"] = int(st.get("stopped", 0))
     if not st.get("programs_run"):
